@@ -3,6 +3,9 @@
 import json, os, glob
 HERE = os.path.dirname(os.path.dirname(os.path.abspath(__file__)))
 CHECKS = {
+ "C20": dict(cat="exploration", tech="exhaustive enumeration of 'schedules' of a fixed corpus: a covering family of PYTHONHASHSEED values (searched until every iteration order of each probe set of <= 3 corpus strings is realised) x random seeds x forced-identical random draws x repeated process starts, each in a fresh interpreter running the same driver; byte comparison of every output",
+             text="A corpus of order-sensitive inputs (1:n field mappings, nested pipelines, regex flag sets, add_condition, stacked filters, correlation sets, set-joined error messages, collected error records, validator run) is converted in separate interpreters under every hash seed of the covering family, several random seeds, a draw mode in which every internal random identifier is identical, and repeated starts; every item's queries / finalised output / error records must be identical and free of _cond_/_filt_ identifiers. Achieved permutation coverage is reported.",
+             note="only hash orders of string sets are owned; identity-hashed validator order is covered by C19; validator issue list compared as multiset", ref="§3 C20"),
  "C16": dict(cat="fault_enumeration", tech="exhaustive injection enumeration (every opt-in key x truthy value x level, single and pairs) and policy products (caller flags x environment values x vars-file locations x entry points) on the real pipeline loader and a full conversion, observed by a CPython audit hook plus sentinel files",
              text="For every capability-bearing item (file/http/command placeholders, template post-processing and finalizer with vars) at every nesting depth, with every injected opt-in key at every level and default caller arguments, no subprocess/file/network/exec event may occur and the item must fail with a Sigma security (or configuration) error; with opt-in by argument or environment the event must occur (positive control); vars files outside the allowed directories (outside, symlink, prefix-sharing sibling) are never executed when directories are in force.",
              note="CPython audit events are the observation; caller opt-in not reaching nested pipelines is stricter than required and not judged", ref="§3 C16"),
